@@ -893,8 +893,15 @@ def subscript(interp, base, idx, st, node):
             if last is not None and lsh is not None and len(lsh) == 1 and ((lsh[0].is_const() and lsh[0].c >= 1) or (lead0 and isinstance(last.term, Term) and last.term.op == "cumsum")):
                 return subscript(interp, last, idx, st, node)
         if bt.op == "cumsum" and len(bt.args) == 1:
-            # the last running sum is the total
-            src = interp.vtab.get(bt.args[0])
+            # the last running sum is the total (a leading 0 prepended to the summands does not change it)
+            inner_ = bt.args[0]
+            if isinstance(inner_, Term) and inner_.op == "concat" and len(inner_.args) == 2 and isinstance(inner_.args[0], Term) and inner_.args[0].op == "list" and len(inner_.args[0].args) == 1 and inner_.args[0].args[0] == const(0) and isinstance(inner_.args[1], Term):
+                w_ = inner_.args[1]
+                while isinstance(w_, Term) and w_.op in ("tolist",) and w_.args and isinstance(w_.args[0], Term):
+                    w_ = w_.args[0]
+                if interp.vtab.get(w_) is not None:
+                    inner_ = w_
+            src = interp.vtab.get(inner_)
             ssh = shape_of(src) if src is not None else None
             if src is not None and ssh is not None and len(ssh) == 1:
                 from . import api_lib as _L
@@ -1056,6 +1063,18 @@ def loop_element(interp, it, lid, st):
         i = V("int", T("lv", lid), shape=(), labels=labels)
         sh = shape_of(it)
         et = T("getitem", it.term, i.term)
+        if isinstance(it.term, Term) and it.term.op == "comp" and len(it.term.args) == 3 and isinstance(it.term.args[1], Term) and it.term.args[1].op == "range" and isinstance(it.extra, tuple) and len(it.extra) >= 2 and it.extra[0] == "comp" and isinstance(it.extra[1], V):
+            # the k-th element of [e(j) for j in range(n)] is e(k)
+            from .interp import subst_term
+
+            rng = it.term.args[1]
+            if len(rng.args) == 2 and rng.args[0] == T("dim", Dim(0)) or (len(rng.args) >= 1 and repr(rng.args[0]) in ("0", "dim(0)")):
+                elt0 = it.extra[1]
+                et2 = subst_term(it.term.args[2], {T("lv", it.term.args[0]): i.term})
+                x = elt0.replace(term=et2, labels=labels | elt0.labels)
+                if x.kind == "arr":
+                    x.loc = fresh_id()
+                return x
         x = V("unk" if sh is None else "arr", et, labels=labels, orig=it.orig, shape=(ragged_fix(tuple(sh[1:]), et) if sh is not None else None))
         if x.kind == "arr":
             x.loc = fresh_id()
